@@ -74,12 +74,10 @@ def rule_cache_key(ctx):
         for t in node.ast.targets:
             if isinstance(t, ast.Subscript) and isinstance(t.value, ast.Name) and t.value.id in caches:
                 nst += 1
-                ok = False
-                cur = node.ast
-                for a in ancestors(node.ast, f.node):
-                    if isinstance(a, ast.If) and norm(a.test) == 'isShortTag' and any(cur is s_ for s_ in a.body):
-                        ok = True
-                    cur = a
+                from sa.cfg import known_at, reaching_defs
+                if 'rd' not in locals():
+                    rd = reaching_defs(cfg, f.params())
+                ok = known_at(cfg, node, 'isShortTag', True, rd)
                 ctx.ob('A5.cachekey', f, 'store %s' % norm(node.ast), ok,
                        'entries are keyed by the first identifier octet only; long-form tags (number >= 31) of one class share '
                        'that octet, so caching one makes every later long tag decode as the first one seen' if not ok
@@ -754,40 +752,39 @@ def rule_encode_contents(ctx):
     """W.oidenc / W.bitenc: first-arcs packing of the OID encoder and bit alignment of the BIT STRING encoder
     as tables over small domains, against X.690 8.19.4 and 8.6.2."""
     f = ctx.func('codec.ber.encoder.ObjectIdentifierEncoder.encodeValue')
-    chains = [n for n in walk_own(f.node) if isinstance(n, ast.If) and 'second' in names_used(n.test) and
-              not (isinstance(n.parent, ast.If) and n in n.parent.orelse)]
-    if len(chains) != 1:
-        raise AnalysisError('first-arcs chain not found in %s' % f.short)
-
-    def outcome(stmts, env):
-        for s in stmts:
-            if isinstance(s, ast.Raise):
-                return 'raise'
-            if isinstance(s, ast.Assign) and norm(s.targets[0]) == 'oid' and isinstance(s.value, ast.BinOp) and \
-                    isinstance(s.value.left, ast.Tuple) and len(s.value.left.elts) == 1 and norm(s.value.right) == 'oid[2:]':
-                return intexpr.ev(s.value.left.elts[0], env)
-            if isinstance(s, ast.If):
-                arms, orelse = if_chain(s)
-                for test, body in arms:
-                    if intexpr.ev(test, env):
-                        return outcome(body, env)
-                return outcome(orelse, env)
-        return 'fallthrough'
+    # region: from the statement after the one that reads the two leading arcs to the start of the sub-identifier loop
+    from sa import region
+    from sa.rules.wire import _resolver
+    top = f.node.body
+    start = [i for i, s_ in enumerate(top) if isinstance(s_, ast.Try) and any(isinstance(x, ast.Subscript) for y in s_.body for x in ast.walk(y))]
+    loops = [i for i, s_ in enumerate(top) if isinstance(s_, (ast.For, ast.While))]
+    if not start or not loops or loops[0] <= start[0]:
+        raise AnalysisError('first-arcs region not found in %s' % f.short)
+    reg = top[start[0] + 1:loops[0]]
+    arcs = [a_.targets[0].id for y in top[start[0]].body for a_ in [y] if isinstance(a_, ast.Assign) and isinstance(a_.targets[0], ast.Name)
+            and isinstance(a_.value, ast.Subscript)]
+    if len(arcs) != 2:
+        raise AnalysisError('the two leading arcs are not read in %s' % f.short)
+    src = norm(top[start[0]].body[0].value.value)      # the tuple the arcs are read from
+    res_ = _resolver(ctx, f, rich=True)
     bad = None
+    chains = reg
     try:
         for first in range(0, 4):
-            for second in range(0, 130):
-                got = outcome([chains[0]], {'first': first, 'second': second})
-                want = (40 * first + second) if (first in (0, 1) and second <= 39) or first == 2 else 'raise'
+            for second in range(0, ctx.scale(130, 1300)):
+                env = {arcs[0]: first, arcs[1]: second, src: (first, second, 'a3', 'a4')}
+                lab, env = region.walk(reg, env, None, res_)
+                got = 'raise' if lab and lab.startswith('raise') else (env.get(src) if lab is None else lab)
+                want = ((40 * first + second), 'a3', 'a4') if (first in (0, 1) and second <= 39) or first == 2 else 'raise'
                 if got != want:
                     bad = (first, second, got, want)
                     break
             if bad:
                 break
-    except intexpr.NotPure as x:
-        raise AnalysisError('first-arcs chain of the OID encoder is not a pure table: %s' % x)
+    except (intexpr.NotPure, region.Undecided) as x:
+        raise AnalysisError('first-arcs region of the OID encoder is not a pure table: %s' % x)
     ctx.ob('W.oidenc', f, 'first sub-identifier = 40 * arc1 + arc2 (arc2 <= 39 unless arc1 == 2), anything else refused', bad is None,
-           'arcs (%d, %d) -> %r, X.690 8.19.4 says %r' % bad if bad else 'checked for arc1 0..3, arc2 0..129', node=chains[0])
+           'arcs (%d, %d) -> %r, X.690 8.19.4 says %r' % bad if bad else 'checked for arc1 0..3, arc2 0..129', node=chains[0] if chains else f.node)
     sub = [n for n in walk_own(f.node) if isinstance(n, ast.If) and 'subOid' in names_used(n.test) and not (isinstance(n.parent, ast.If) and n in n.parent.orelse)]
     if len(sub) == 1:
         arms, orelse = if_chain(sub[0])
